@@ -417,10 +417,31 @@ def history(ctx, fmt, workdir, events):
 
 
 # ---- store fidelity: write, reopen, compare -----------------------------------------------------------------------------------------------
-def fidelity_frames(rng):
+def _fid_index(rng, nr, kind):
+    if kind == 'str_sorted':
+        return ['r%d' % i for i in range(nr)]
+    if kind == 'str_any':
+        return rng.sample(['q', 'a', 'm', 'zz', 'b', 'k'], nr)
+    if kind == 'int_any':
+        return rng.sample([30, 10, 20, -1, 0, 7, 1000], nr)          # not sorted: the order written is part of the Frame
+    if kind == 'int_desc':
+        return list(range(nr * 10, 0, -10))
+    # depth 2, tree ordered but not sorted
+    outer = rng.sample(['y', 'x', 'z'], min(3, max(1, (nr + 1) // 2)))
+    labs = []
+    for o in outer:
+        for i in rng.sample([3, 1, 2], 2):
+            if len(labs) < nr:
+                labs.append((o, i))
+    return sf.IndexHierarchy.from_labels(labs)
+
+
+def fidelity_frames(rng, index_kind='str_sorted'):
     out = []
     for k in range(rng.randint(1, 5)):
         nr, nc = rng.randint(1, 4), rng.randint(1, 4)
+        index = _fid_index(rng, nr, index_kind)
+        nr = len(index)
         cols = []
         for j in range(nc):
             kind = rng.choice('ifsb')
@@ -432,7 +453,7 @@ def fidelity_frames(rng):
                 cols.append(np.array([rng.choice(['ab', 'c d', 'xyz', 'q']) for _ in range(nr)]))
             else:
                 cols.append(np.array([rng.random() < 0.5 for _ in range(nr)]))
-        f = sf.Frame.from_items(zip(['c%d' % j for j in range(nc)], cols), index=['r%d' % i for i in range(nr)], name='t%d' % (k * 7 % 5 + k))
+        f = sf.Frame.from_items(zip(['c%d' % j for j in range(nc)], cols), index=index, name='t%d' % (k * 7 % 5 + k))
         out.append(f)
     rng.shuffle(out)
     return out
@@ -455,10 +476,14 @@ def same_frame(a, b, exact):
 
 
 def roundtrip_event(ctx, fmt, workdir, k):
-    frames = fidelity_frames(ctx.rng)
+    index_kind = ctx.rng.choice(['str_sorted', 'str_any', 'int_any', 'int_any', 'int_desc', 'depth2'])
+    frames = fidelity_frames(ctx.rng, index_kind)
+    ctx.count('V_roundtrip_index_' + index_kind)
     fp = os.path.join(workdir, 'rt%d%s' % (k, EXT[fmt]))
     b = sf.Bus.from_frames(frames)
     kw = {'config': config_for(fmt)} if config_for(fmt) is not None else {}
+    if kw and index_kind == 'depth2':
+        kw = {'config': sf.StoreConfig(index_depth=2, columns_depth=1)}
     try:
         getattr(b, 'to_' + fmt)(fp, **kw)
         r = getattr(sf.Bus, 'from_' + fmt)(fp, **kw)
@@ -512,7 +537,7 @@ def main(ctx):
         finally:
             shutil.rmtree(d, ignore_errors=True)
         ctx.count('V_histories_' + fmt)
-    for k in range(60 if quick else 1500):
+    for k in range(160 if quick else 3000):
         events.append(roundtrip_event(ctx, ctx.rng.choice(fmts), workdir, k))
         ctx.count('V_roundtrips')
     for k, ev in enumerate(events):
